@@ -1660,6 +1660,8 @@ enum Flow {
 struct LoopState {
     s: Session,
     cfg: Cfg,
+    /// the double step that re-creates a constructed en-passant situation by play
+    forced_first: Option<Mv>,
     /// C04 per-run table: position key -> (zobrist, board, occurrences)
     seen: BTreeMap<PosKey, (u64, Board, u32)>,
     three_fold: chess_engine::ThreeFold,
@@ -1861,7 +1863,13 @@ fn one_ply(ctx: &mut Ctx, st: &mut LoopState, ply: u32) -> Step<Flow> {
             return Ok(Flow::Break);
         }
         // play
-        let m = choose_move(ctx, &st.s, &st.cfg, &l1);
+        let m = match st.forced_first.take() {
+            Some(f) if l1.contains(&f) => {
+                ctx.stats.bump("probe.ep-situation-reached-by-play");
+                f
+            }
+            _ => choose_move(ctx, &st.s, &st.cfg, &l1),
+        };
         let kind = st.s.model.kind(m);
         let which = ctx.tape.choose(3);
         let next_model = st.s.model.make(m);
@@ -1917,6 +1925,13 @@ fn one_ply(ctx: &mut Ctx, st: &mut LoopState, ply: u32) -> Step<Flow> {
                         // status and restart monitors judge what the board reports
                         ctx.stats.bump("c03.continued-with-clock-desync");
                     } else {
+                        if ctx.claim == Prop::C01 && ctx.mode == Prop::C01 {
+                            // the position reached by the rules is the model's; what the generator
+                            // lists on the board the code produced for it is C01's business,
+                            // whatever C02 has to say about that board
+                            ctx.stats.bump("c01.monitor-at-position-with-wrong-successor");
+                            check_legals(ctx, &st.s)?;
+                        }
                         return fail_any(ctx, &[(Prop::C02, &format!("succ.{comp}"))], feat, format!("after {} : {d}; now {}", m.text(), st.s.model.fen()));
                     }
                 }
@@ -1937,7 +1952,33 @@ fn one_ply(ctx: &mut Ctx, st: &mut LoopState, ply: u32) -> Step<Flow> {
 pub fn run(ctx: &mut Ctx) -> Step {
     let cfg = draw_cfg(ctx);
     ctx.stats.bump(&format!("gen.{}", gen::GEN_NAMES[cfg.gen as usize]));
-    let start = gen::generate(&mut ctx.tape, cfg.gen);
+    let mut start = gen::generate(&mut ctx.tape, cfg.gen);
+    // a constructed en-passant situation is, half of the time, taken back by one ply: the
+    // session starts before the double step and plays it, so that the marker, the pins and the
+    // checkers of the situation come from the incremental update rather than from a loader
+    let mut forced_first: Option<Mv> = None;
+    if let Some(f) = start.ep {
+        if ctx.tape.choose(2) == 1 {
+            let mover = start.stm ^ 1;
+            let (to_r, from_r, mid_r) = if mover == m1::WHITE { (3u8, 1u8, 2u8) } else { (4u8, 6u8, 5u8) };
+            let (to, from, mid) = (m1::sq(f, to_r), m1::sq(f, from_r), m1::sq(f, mid_r));
+            if start.sq[to as usize] == m1::pc(mover, m1::P) && start.sq[from as usize] == m1::EMPTY && start.sq[mid as usize] == m1::EMPTY {
+                let mut pre = start.clone();
+                pre.sq[to as usize] = m1::EMPTY;
+                pre.sq[from as usize] = m1::pc(mover, m1::P);
+                pre.stm = mover;
+                pre.ep = None;
+                if mover == m1::BLACK && pre.fmn > 0 {
+                    pre.fmn -= 1;
+                }
+                let step = Mv::new(from, to, 0);
+                if pre.validity().is_ok() && pre.legal_moves().contains(&step) {
+                    start = pre;
+                    forced_first = Some(step);
+                }
+            }
+        }
+    }
     let fen0 = start.fen();
     if cfg.gen == 10 {
         // reach probes for the mate hunt
@@ -1998,7 +2039,7 @@ pub fn run(ctx: &mut Ctx) -> Step {
         last_kind: None,
         last_gave_check: false,
     };
-    let mut st = LoopState { s, cfg, seen: BTreeMap::new(), three_fold: chess_engine::ThreeFold::new(), table: Default::default(), recent: Vec::new(), other_text: fen0.clone(), history_text: Vec::new(), trace: Vec::new() };
+    let mut st = LoopState { s, cfg, forced_first, seen: BTreeMap::new(), three_fold: chess_engine::ThreeFold::new(), table: Default::default(), recent: Vec::new(), other_text: fen0.clone(), history_text: Vec::new(), trace: Vec::new() };
     for ply in 0..st.cfg.ply_limit {
         match one_ply(ctx, &mut st, ply) {
             Ok(Flow::Continue) => {}
